@@ -2,7 +2,7 @@
 from ..runner import Shard, Violation
 from ..tools import ITER_TOOLS
 from ..gen import base_case, features
-from ..core import run_async, run_sync, consumer_view, first_diff
+from ..core import expect_return, run_async, run_sync, consumer_view, first_diff
 
 PROPERTY = "C01"
 LEVEL = "exploration"
@@ -37,8 +37,7 @@ def check(case):
     tool = case["tool"]
     bs = run_sync(case)
     ba, outcome = run_async(case)
-    if outcome[0] != "return":
-        raise Violation(f"C01/{tool}/consumer-crash", repr(outcome))
+    expect_return(outcome, f"C01/{tool}")
     av, sv = consumer_view(ba.ctx.log), consumer_view(bs.ctx.log)
     d = first_diff(av, sv)
     if d is not None:
